@@ -5,6 +5,7 @@ import (
 	"errors"
 	"fmt"
 	"net"
+	"sync"
 
 	"github.com/andydunstall/yamux"
 	"go.uber.org/zap"
@@ -52,6 +53,9 @@ type listener struct {
 	//
 	// This is used to accept incoming multiplexed connections.
 	sess *yamux.Session
+	// sessMu protects sess, which is replaced when reconnecting (from Accept)
+	// and read by Close and Shutdown (from other goroutines).
+	sessMu sync.Mutex
 
 	// closeCtx closes the listener on listener.Close()
 	closeCtx    context.Context
@@ -77,7 +81,7 @@ func (l *listener) Accept() (net.Conn, error) {
 
 func (l *listener) AcceptWithContext(ctx context.Context) (net.Conn, error) {
 	for {
-		conn, err := l.sess.AcceptStreamWithContext(ctx)
+		conn, err := l.session().AcceptStreamWithContext(ctx)
 		if err == nil {
 			return conn, nil
 		}
@@ -111,10 +115,10 @@ func (l *listener) Addr() net.Addr {
 func (l *listener) Close() error {
 	// Cancel to stop reconnect attempts.
 	l.closeCancel()
-	if l.sess != nil {
+	if sess := l.session(); sess != nil {
 		// Stop accepting connections. This notifies the server that this
 		// upstream is no longer accepting connections.
-		return l.sess.GoAway()
+		return sess.GoAway()
 	}
 	return nil
 }
@@ -122,9 +126,9 @@ func (l *listener) Close() error {
 func (l *listener) Shutdown() error {
 	// Cancel to stop reconnect attempts.
 	l.closeCancel()
-	if l.sess != nil {
+	if sess := l.session(); sess != nil {
 		// Close the underlying connection.
-		return l.sess.Close()
+		return sess.Close()
 	}
 	return nil
 }
@@ -141,8 +145,25 @@ func (l *listener) connect(ctx context.Context) error {
 	if err != nil {
 		return err
 	}
+
+	l.sessMu.Lock()
 	l.sess = sess
+	l.sessMu.Unlock()
+
+	// If the listener was closed while reconnecting, Close or Shutdown may
+	// have only seen the old session, so close the new session rather than
+	// leave it connected.
+	if l.closeCtx.Err() != nil {
+		_ = sess.Close()
+		return ErrClosed
+	}
 	return nil
+}
+
+func (l *listener) session() *yamux.Session {
+	l.sessMu.Lock()
+	defer l.sessMu.Unlock()
+	return l.sess
 }
 
 var _ Listener = &listener{}
